@@ -362,7 +362,7 @@ class C03(Prop):
             lvl_scale = 1.0
             # around zero flow every q with R*q^1.852 below the head tolerance is a converged solution (loops of short fat pipes)
             from .. import oracles as _or
-            cond = max(_or.flow_col_atol(scn, ref, times).values()) if scn['links'] else 0.0
+            cond = max(v for k_, v in _or.flow_col_atol(scn, ref, times).items() if not isinstance(k_, tuple)) if scn['links'] else 0.0
             checks = (('node', 'head', 0.03 + 1e-3 * hrange), ('node', 'pressure', 0.03 + 1e-3 * hrange),
                       ('node', 'demand', 5e-3 * qmax + 1e-6 + cond), ('link', 'flowrate', 1e-2 * qmax + 3e-5 + cond))
             # a tank that reaches a level limit: EPANET keeps the flows of the solution just before the limit for the rest of the step and
